@@ -29,6 +29,7 @@ type Ev struct {
 	qvars []string // binders of enclosing spec quantifiers
 	wfSeen map[string]bool
 	qindex map[string][2]string // bound variable -> (offset term, select term) of its first use as a slice index
+	inTypeInv bool
 	allocPred string // at a call site: the predicate 'allocated by this call'
 }
 
@@ -942,6 +943,10 @@ func (e *Ev) assertTo(x Term, to types.Type, n ast.Node) (Term, string) {
 	switch ts {
 	case sInt:
 		r.S = app("oref", x.S)
+		if _, isPtr := to.Underlying().(*types.Pointer); isPtr {
+			// no typed-nil pointer is ever stored in an interface by this package
+			e.define(smtImp(ok, app(">", r.S, "0")))
+		}
 	case sStr:
 		r.S = app("ostr", x.S)
 	default:
@@ -1070,7 +1075,9 @@ func (e *Ev) load(l *Loc, n ast.Node) Term {
 	case "heap":
 		s := e.sortOf(l.T)
 		h := e.heap(l.Name, fmt.Sprintf("(Array Int %s)", s))
-		return Term{S: app("select", h, l.Ref), Sort: s, T: l.T}
+		r := Term{S: app("select", h, l.Ref), Sort: s, T: l.T}
+		e.typeInvAssume(r)
+		return r
 	case "elem":
 		s := e.sortOf(l.T)
 		h := e.elemHeap(s)
@@ -1092,6 +1099,7 @@ func (e *Ev) store(l *Loc, v Term, n ast.Node) {
 	case "heap":
 		s := e.sortOf(l.T)
 		h := e.heap(l.Name, fmt.Sprintf("(Array Int %s)", s))
+		e.typeInvCheck(Term{S: v.S, Sort: s, T: l.T}, n)
 		e.setHeap(l.Name, app("store", h, l.Ref, v.S), fmt.Sprintf("(Array Int %s)", s))
 	case "elem":
 		v = e.toType(v, l.T, n)
@@ -1443,6 +1451,7 @@ func (e *Ev) freshRef(hint string) string {
 	for _, o := range e.st.allocs {
 		e.define(smtNot(smtEq(r, o)))
 	}
+	e.notInHeaps(func(c string) string { return smtNot(smtEq(c, r)) })
 	e.st.allocs = append(e.st.allocs, r)
 	return r
 }
@@ -1532,4 +1541,72 @@ func (e *Ev) wfSlice(t Term) {
 		c = fmt.Sprintf("(forall (%s) %s)", strings.Join(used, " "), c)
 	}
 	e.define(c)
+}
+
+// Type invariants (`typeinv T` / `def <expr over self>`): a predicate on the struct value that
+// holds for every object of the type in the heap. Assumed when an object is read, proved when one
+// is written.
+func (e *Ev) typeInvBlock(t types.Type) *Block {
+	name := e.g().namedName(t)
+	if name == "" {
+		return nil
+	}
+	return e.g().C.byID["typeinv:"+name]
+}
+
+func (e *Ev) typeInvTerm(b *Block, v Term) string {
+	defs := b.clauses("def")
+	if len(defs) != 1 {
+		e.errorf(nil, "typeinv %s needs one def clause", b.Target)
+		return "true"
+	}
+	se := *e
+	se.spec = true
+	se.quiet = true
+	se.bound = map[string]Term{}
+	for k, x := range e.bound {
+		se.bound[k] = x
+	}
+	se.bound["self"] = v
+	return se.specExpr(defs[0].Text).S
+}
+
+func (e *Ev) typeInvAssume(v Term) {
+	b := e.typeInvBlock(v.T)
+	if b == nil || e.inTypeInv {
+		return
+	}
+	e.inTypeInv = true
+	c := e.typeInvTerm(b, v)
+	e.inTypeInv = false
+	if e.u.tinvDone == nil {
+		e.u.tinvDone = map[string]bool{}
+	}
+	if e.u.tinvDone[c] {
+		return
+	}
+	e.u.tinvDone[c] = true
+	var used []string
+	for _, qv := range e.qvars {
+		name := qv[1:strings.Index(qv, " ")]
+		if strings.Contains(c, name) {
+			used = append(used, qv)
+		}
+	}
+	if len(used) > 0 {
+		c = fmt.Sprintf("(forall (%s) %s)", strings.Join(used, " "), c)
+	}
+	e.define(c)
+	e.g().Assumed["type invariant of "+b.Target+" holds for every object in the heap (proved at every store in the verified units)"] = true
+}
+
+func (e *Ev) typeInvCheck(v Term, n ast.Node) {
+	b := e.typeInvBlock(v.T)
+	if b == nil || e.spec || e.quiet {
+		return
+	}
+	e.inTypeInv = true
+	c := e.typeInvTerm(b, v)
+	e.inTypeInv = false
+	e.u.addObl(fmt.Sprintf("%s/typeinv:%s@%s", e.u.contractID(), b.Target, e.u.siteID(n)), e.u.props, e.st, smtImp(e.guardCond(), c), "type invariant of "+b.Target+" preserved by this store", nil)
 }
